@@ -16,6 +16,8 @@ Decides:
 import json
 import os
 
+import re
+
 from analysis import rule
 from analysis.guards import GuardAnalysis
 from analysis.numdom import NumAnalysis, Z, INF
@@ -132,6 +134,25 @@ def iter_hook(na, st):
     st.z.add(G_CUR, CUR, 0)
 
 
+G_LEN = ("ghost", "rawlen")
+G_AVAIL = ("ghost", "rawavail")
+
+
+def iter_call_hook(na, st, b, c):
+    """ghosts for the block data: its availability (discriminant of raw_diag_buffer()'s result) and its length"""
+    if (c.get("callee") or "").endswith("::raw_diag_buffer"):
+        dpl = mk_place(c["dest"])
+        dv = ("v", dpl[0], dpl[1] + (("discr",),))
+        lv = ("len", dpl[0], dpl[1] + (("dc", "Some"), ("f", "0")))
+        st.z.forget(G_LEN)
+        st.z.forget(G_AVAIL)
+        st.z.set_interval(dv, 0, 1)
+        st.z.set_interval(lv, 0, 2**63 - 1)
+        for g_, v_ in ((G_AVAIL, dv), (G_LEN, lv)):
+            st.z.add(g_, v_, 0)
+            st.z.add(v_, g_, 0)
+
+
 def check_iter(ctx, P):
     f = None
     for fn in P.crate_fns(CR):
@@ -141,7 +162,7 @@ def check_iter(ctx, P):
     if f is None:
         return
     ctx.analysed_fns.add(f.name)
-    na = NumAnalysis(f, P, entry_hook=iter_hook)
+    na = NumAnalysis(f, P, entry_hook=iter_hook, call_hook=iter_call_hook)
     nob = 0
     for key, o in sorted(na.obligations.items(), key=lambda kv: (kv[1]["kind"], kv[0])):
         nob += 1
@@ -181,7 +202,10 @@ def check_iter(ctx, P):
                 nnone += 1
     ctx.anchor("yielding return sites", nsome, 3)
     # None sites: cursor >= len(raw)  – by guard facts (cursor >= len) or by the store cursor = len(raw)
-    gm = GuardAnalysis(f, P, mem_kill=True)
+    def terminal(sts):
+        """in every state: there is no block data at all, or the cursor is at/after its end (zone: rawlen - cursor <= 0)"""
+        return all(st.z.hi(G_AVAIL) == 0 or st.z.get(G_LEN, CUR) <= 0 for st in sts)
+    sites = []
     for b, i, s in stmts(f):
         if "a" in s and mk_place(s["a"]) == (0, ()) and s["rv"].get("variant") == "None" and "agg" in s["rv"]:
             S = g.at(b, i)
@@ -193,8 +217,15 @@ def check_iter(ctx, P):
                 # must be preceded (dominated) by a store cursor = len(raw_buffer)
                 stores = [(sb, si) for sb, si, ss in stmts(f) if "a" in ss and has_field(ss["a"], "cursor", "usize") and tb.rvalue(ss["rv"])[0] == "len"]
                 ok_all = any(sb in f.dom[b] for sb, si in stores)
-            ctx.ob("b.progress", "none-terminal#%d" % sum(1 for o in ctx.obligations if o["key"].startswith("%s|b.progress|none-terminal" % PID)), ok_all,
-                   "`None` is returned without the cursor being at/after the end of the data: the iterator would resume after a malformed block", f.loc(b, i))
+            sites.append((b, i, ok_all or terminal(na.states_before(b, i))))
+    # `?` on an Option: the early `None` produced by from_residual is a return site like the others
+    for b, c in call_sites(f):
+        if (c.get("callee") or "").endswith("::from_residual") and mk_place(c["dest"]) == (0, ()):
+            nnone += 1
+            sites.append((b, None, terminal(na.states_at_term(b))))
+    for b, i, ok_all in sites:
+        ctx.ob("b.progress", "none-terminal#%d" % sum(1 for o in ctx.obligations if o["key"].startswith("%s|b.progress|none-terminal" % PID)), ok_all,
+               "`None` is returned without the cursor being at/after the end of the data: the iterator would resume after a malformed block", f.loc(b, i))
     ctx.anchor("`None` return sites", nnone, 2)
 
 
@@ -204,9 +235,10 @@ def block_byte(t):
     t = strip_casts(strip_refs(t))
     if t[0] == "index" and t[2][0] == "const":
         base = strip_refs(t[1])
-        while base[0] == "deref":
-            base = base[1]
-        if base[0] == "call" and "index" in base[1] and len(base[2]) == 2:
+        # `&raw[cursor..]` or the payload of `raw.get(cursor..)`
+        while base[0] == "deref" or (base[0] == "field" and base[2] == "0" and base[1][0] == "dc" and base[1][2] == "Some"):
+            base = base[1] if base[0] == "deref" else strip_refs(base[1][1])
+        if base[0] == "call" and ("index" in base[1] or re.search(r"<impl \[T\]>::get(_mut)?$", base[1])) and len(base[2]) == 2:
             rng = base[2][1]
             if rng[0] == "agg" and str(rng[1]).endswith("RangeFrom") and path_str(rng[3][0]) == "self.cursor":
                 return "remainder[%d]" % t[2][1]
